@@ -65,6 +65,14 @@ def run(ctx):
         data = bytes(rng.getrandbits(8) for _ in range(rng.choice([0, 1, 2, 9, 40]))) if r < 0.4 else cborgen.gen_item(rng, 3)["b"][:rng.choice([1, 5, 1000])] if r < 0.7 else rng.choice(muts)[:300]
         ops = [rng.choice(OPS) for _ in range(rng.choice([1, 3, 8]))]
         exact.append({"id": "d%d" % i, "script": ["D new %s %s" % (rng.choice(["ss", "fs"]), data.hex() or "-")] + ops + ["D rest"], "expect": None, "meta": {"kind": "decoder-ops"}})
+    # (a') EVERY initial byte x every decoder operation (exhaustive: 256 x 11), followed by a few bytes so that arguments and short payloads
+    #      are there: all additional-information values of all major types meet every read operation
+    tails = [bytes([0, 1, 2, 3, 4, 5, 6, 7, 8, 9]), bytes([0xff] * 10), bytes([0x01, 0x41, 0x61, 0x00, 0xff, 0x81, 0x00, 0xa1, 0x00, 0x00])]
+    for b0 in range(256):
+        for k, op in enumerate(OPS):
+            data = bytes([b0]) + tails[(b0 + k) % 3]
+            exact.append({"id": "i%d_%d" % (b0, k), "script": ["D new %s %s" % ("ss" if (b0 + k) % 2 else "fs", data.hex()), op, "D rest"], "expect": None,
+                          "meta": {"kind": "decoder-ops/every-initial-byte"}})
     # (b) the file reader + generic accessors on mutated files: outcome compared up to the exception class
     deep = []
     for i, m in enumerate(muts):
@@ -83,6 +91,12 @@ def run(ctx):
             for where, pos in (("preamble", 7), ("block", hdr + 1)):
                 m = f[:pos] + bytes([f[pos] + 1]) + deepv + f[pos + 1:]
                 deep.append({"id": "n%d%s%s" % (fi, kind, where), "script": ["F read " + m.hex()], "expect": None, "meta": {"kind": "reader/unknown-member-nested-deep"}})
+    # (h) every kind of stored table index set to exactly the length of its table (the smallest out-of-range value): the reader must refuse it
+    for fi, f in enumerate(files[:(3 if tier == "quick" else 30)]):
+        try: ms = refcbor.index_boundary_mutants(refcbor.parse_all(f))
+        except Exception: ms = []
+        for kind, m in ms:
+            loose.append({"id": "ix%d%s" % (fi, kind), "script": ["F read " + m.hex()], "expect": None, "meta": {"kind": "reader/index-at-table-length"}})
     # (e) inputs longer than the decoder window (65535 bytes): truncated inside a long string, length fields inflated beyond the input
     big = []
     for k in range(3 if tier == "quick" else 20):
@@ -166,7 +180,8 @@ def run(ctx):
     shutil.rmtree(root, ignore_errors=True)
     cases = exact + loose + rend + deep
     common.summarize_cov(rep, cases,
-        "(a) sequences of decoder operations on random bytes, truncated well-formed items and file mutants (compared exactly with the model: "
+        "(a) sequences of decoder operations on random bytes, truncated well-formed items and file mutants, and every decoder operation on every initial byte "
+        "(256 x 11, exhaustive) (compared exactly with the model: "
         "values, exception class, remaining input); (b) CdnsReader + read_generic_* on mutants of exporter-produced files - structure-aware "
         "(integers -> boundary values incl. out-of-range indices and 2^64-1 counts, members dropped / duplicated, definite <-> indefinite, wrong "
         "types, tags), byte flips, truncation, allocation bombs (length 2^36, 2^64-1), nesting depth 2000 / 60000 - under ASan+UBSan with a 1 MiB "
@@ -175,5 +190,6 @@ def run(ctx):
         "inflated lengths; (f) maps that repeat one key - whole files (8% of the mutants) and each of the 19 structures - what the reader makes of them "
         "(the block's item vectors and tables append, everything else: last occurrence) and structures with one member missing (exactly the mandatory "
         "members are insisted on), compared exactly with the model; (g) members with unknown keys "
-        "whose value is nested 60000 deep (arrays, indefinite arrays, tags, maps) in the preamble map and the first block map", diffs, fails)
+        "whose value is nested 60000 deep (arrays, indefinite arrays, tags, maps) in the preamble map and the first block map; (h) each kind of stored "
+        "table index (27 kinds) set to exactly the length of the table it points into", diffs, fails)
     return {"diffs": diffs, "fails": fails, "to_script": lambda c: common.case_script(c)}
